@@ -16,6 +16,7 @@ import logging
 logging.disable(logging.CRITICAL)
 
 import vt
+import peer as refpeer
 
 T21 = {"T1": 750000, "T2": 1250000, "T3": 1250000, "Th": 500000}
 
@@ -121,7 +122,14 @@ def run(sc):
     until = sc.get("drop_until")
     sim.drop = (lambda idx, src, fr: idx in drops and (until is None or sim.now_us - t0 < until)) if drops else None
 
+    peers = {}
+    for pd in sc.get("peers", []):
+        ch = refpeer.Chooser(script=pd["script"]) if "script" in pd else refpeer.Chooser(rng=random.Random(pd.get("seed", 0)))
+        peers[pd["name"]] = refpeer.RefPeer(sim, pd["addr"], ch, fd=(sc.get("dll") == "j1939-22"), name=pd["name"],
+                                            latency=pd.get("lat", 300), maxc=pd.get("maxc", 255))
     stim = []
+    for s in sc.get("psends", []):
+        stim.append((s["t"], 2, s))
     for s in sc.get("sends", []):
         stim.append((s["t"], 0, s))
     for s in sc.get("inject", []):
@@ -130,6 +138,11 @@ def run(sc):
     for t, kind, s in stim:
         if t0 + t > sim.now_us:
             sim.run(t0 + t - sim.now_us)
+        if kind == 2:
+            pr = peers[s["peer"]]
+            pr.send(s["da"], s.get("dp", 0), s["pf"], s.get("ps", 0), payload(s["size"], s.get("salt", 0)),
+                    prio=s.get("prio", 6), sess=s.get("sess", 0))
+            continue
         n = sim.node(s["node"])
         if n.silent:
             continue
@@ -150,4 +163,5 @@ def run(sc):
     expect = {"all": False, "idle": False, "slack": 0,
               "bus": not (sc.get("drop") or sc.get("silence") or sc.get("hostile"))}
     expect.update(sc.get("expect", {}))
+    sim.peer_objs = peers
     return {"cfg": cfg, "ev": sim.trace, "expect": expect, "meta": {"scenario": sc}}, sim
